@@ -312,3 +312,54 @@ theorem contract_of_matrix {K : Type} [Field K] {m n : Nat} (A : Mat K m n) (Gm 
   simp only [Mat.toM_mul, Mat.toM_transpose, Mat.toM_ofFn, Mat.toM_one]
   exact h
 end QM.C09
+
+open Matrix
+namespace QM.C09
+theorem m_rank_of_injective {K : Type} [Field K] {m n : Nat} (A : Matrix (Fin m) (Fin n) K)
+    (h : ∀ d, A *ᵥ d = 0 → d = 0) : A.rank = n := by
+  have hrn := LinearMap.finrank_range_add_finrank_ker A.mulVecLin
+  simp only [Module.finrank_fintype_fun_eq_card, Fintype.card_fin] at hrn
+  have hb : LinearMap.ker A.mulVecLin = ⊥ := by
+    rw [LinearMap.ker_eq_bot']
+    intro d hd
+    exact h d (by simpa using hd)
+  have hk : Module.finrank K (LinearMap.ker A.mulVecLin) = 0 := by rw [hb]; simp
+  have : A.rank = Module.finrank K (LinearMap.range A.mulVecLin) := rfl
+  omega
+end QM.C09
+
+namespace QM.C08
+open QM.C09 Matrix
+variable {K : Type} {m n : Nat}
+
+theorem dists_eq_iff_mulVec [Field K] (per : List (List (List K × K))) (A : Mat K m n)
+    (hA : rowsOf A = matA (mkCoeffs per)) (v v' : Vec K n) :
+    ((per.map fun rows => rows.map (rowVal v.toList)) = per.map fun rows => rows.map (rowVal v'.toList)) ↔
+      A.mulVec v = A.mulVec v' := by
+  rw [dists_eq_iff, ← hA, ← mulVec_toList, ← mulVec_toList]
+  exact Vector.toList_inj
+
+theorem rank_iff_IC' [Field K] (per : List (List (List K × K))) (A : Mat K m n)
+    (hA : rowsOf A = matA (mkCoeffs per)) :
+    A.toM.rank = n ↔ ∀ v v' : Vec K n,
+      ((per.map fun rows => rows.map (rowVal v.toList)) = per.map fun rows => rows.map (rowVal v'.toList)) → v = v' := by
+  constructor
+  · intro hr v v' hd
+    rw [dists_eq_iff_mulVec per A hA] at hd
+    have h1 := congrArg Vec.toV hd
+    simp only [Mat.toV_mulVec] at h1
+    have h0 : A.toM *ᵥ (Vec.toV v - Vec.toV v') = 0 := by rw [Matrix.mulVec_sub, h1, sub_self]
+    have := m_injective_of_rank A.toM hr _ h0
+    exact Vec.toV_injective (sub_eq_zero.1 this)
+  · intro h
+    apply m_rank_of_injective
+    intro d hd
+    have hv : A.mulVec (Vec.ofFn d) = A.mulVec (Vec.zero : Vec K n) := by
+      apply Vec.toV_injective
+      simp only [Mat.toV_mulVec, Vec.toV_ofFn, Vec.toV_zero, Matrix.mulVec_zero]
+      exact hd
+    have := h _ _ ((dists_eq_iff_mulVec per A hA _ _).2 hv)
+    have e := congrArg Vec.toV this
+    simpa using e
+
+end QM.C08
